@@ -193,6 +193,22 @@ Node gen_tree(Rng &r, const GenKnobs &k, bool array_root) {
     kk.p_empty = k.p_empty / 3;         // the root itself is rarely empty
     gen_container_body(r, kk, root, budget, k.max_obj_depth - (array_root ? 0 : 1) , k.max_arr_depth - (array_root ? 1 : 0));
     // children were generated with the root's reduced p_empty; acceptable
+    if (k.long_strings >= 1 && !root.kids.empty()) {
+        // the longest token of the document sometimes sits at its very end (last value of the root: only the closing byte
+        // follows it), where "does it still fit" arithmetic has no slack
+        Rng re = r.fork("edge");
+        if (re.chance(1, 3)) {
+            Node *longest = nullptr;
+            std::vector<Node *> todo{&root};
+            while (!todo.empty()) { Node *n = todo.back(); todo.pop_back(); for (auto &c : n->kids) { if ((c.t == V_STR || c.t == V_BYTES) && c.s.size() >= 100 && (!longest || c.s.size() > longest->s.size())) longest = &c; todo.push_back(&c); } }
+            if (longest && longest != &root.kids.back()) {
+                Node tail; tail.t = longest->t; tail.s = longest->s;
+                longest->s.resize(3);
+                if (!array_root) { tail.name = root.kids.back().name; tail.name.push_back(0xff); }
+                root.kids.push_back(tail);
+            }
+        }
+    }
     return root;
 }
 
